@@ -735,6 +735,7 @@ class bptk():
         consumed_scenarios = []
         consumed_scenario_managers = []
         abm_results_dict = dict()
+        abm_columns = []
         sd_results_dict = dict()
         for _ , manager in self.scenario_manager_factory.scenario_managers.items():
 
@@ -747,14 +748,17 @@ class bptk():
 
                 runner = HybridRunner(self.scenario_manager_factory)
 
-                simulation_results += [runner.run_scenario(
+                abm_result = runner.run_scenario(
                     scenarios=[scenario for scenario in manager.scenarios.keys() if scenario in scenarios],
                     agents=agents, agent_states=agent_states, agent_properties=agent_properties,
                     agent_property_types=agent_property_types, progress_bar=progress_bar,
                     scenario_managers=[manager.name],
                     abm_results_dict=abm_results_dict,
                     return_format=return_format
-                )]
+                )
+                if return_format == "df":
+                    abm_columns += list(abm_result.columns)
+                simulation_results += [abm_result]
 
             # Handle SD sceanrios
             elif manager.name in scenario_managers and manager.type == "sd" and len(equations) > 0:
@@ -810,8 +814,13 @@ class bptk():
         if len(simulation_results) > 1:
             if return_format=="df":
                 df = simulation_results.pop(0)
+                # agent statistics report 0 for a state that is empty; that also holds for the times only another
+                # scenario manager recorded (their columns are filled like the runner fills them within a manager)
                 for tmp_df in simulation_results:
-                    df = df.join(tmp_df)
+                    # outer join: keep the times of every scenario manager, not only those of the first one
+                    df = df.join(tmp_df, how="outer")
+                if abm_columns:
+                    df[abm_columns] = df[abm_columns].fillna(0)
             else:
                 # this works because in this case the entire data structure is copied a number of times
                 df = simulation_results.pop(0)
